@@ -92,6 +92,44 @@ def run_protoc(binary, dsl_path, outdir, langs=None, timeout=60):
     return {'rc': rc, 'stdout': so, 'stderr': se, 'files': files}
 
 
+def _lines(b):
+    import re
+    return sorted(re.sub(rb'Copyright \d+', b'Copyright Y', b).split(b'\n'))
+
+
+def recompile_probe(binary, dsl_path, d, first):
+    """the same compile once more, into directories that already hold files of the same names and sizes with other content
+    (what a previous compile of another revision leaves behind, newer than the DSL): the result must be the first run's files.
+    Returns {lang: [files that differ]}; files are compared as line multisets (map-order nondeterminism is C13's subject)."""
+    out2 = os.path.join(d, 'out2')
+    shutil.rmtree(out2, ignore_errors=True)
+    for lang, fs in first['files'].items():
+        for rel, path in fs.items():
+            q = os.path.join(out2, lang, rel)
+            os.makedirs(os.path.dirname(q), exist_ok=True)
+            n = os.path.getsize(path)
+            with open(q, 'wb') as f:
+                f.write(b'#' * n)
+    r2 = run_protoc(binary, dsl_path, out2)
+    bad = {}
+    for lang, fs in first['files'].items():
+        for rel, path in fs.items():
+            q = os.path.join(out2, lang, rel)
+            try:
+                same = _lines(open(path, 'rb').read()) == _lines(open(q, 'rb').read())
+            except OSError:
+                same = False
+            if not same:
+                bad.setdefault(lang, []).append(rel)
+        extra = sorted(set(r2['files'].get(lang, {})) - set(fs))
+        if extra:
+            bad.setdefault(lang, []).extend('+' + x for x in extra)
+    if r2['rc'] != first['rc']:
+        bad['exit'] = ['exit status %s instead of %s' % (r2['rc'], first['rc'])]
+    shutil.rmtree(out2, ignore_errors=True)
+    return bad
+
+
 def emit_family(progs, tag):
     """compile every program of the family; returns {name: result}; cached on disk"""
     cd = cache_dir()
@@ -118,6 +156,7 @@ def emit_family(progs, tag):
         r = run_protoc(binary, dsl, os.path.join(d, 'out'))
         r['dsl'] = text
         r['dir'] = d
+        r['stale'] = recompile_probe(binary, dsl, d, r) if r['rc'] == 0 else {}
         json.dump(r, open(st + '.tmp', 'w'))
         os.replace(st + '.tmp', st)
         return p.name, r
